@@ -46,9 +46,16 @@ def segments(val: bytes, width: int):
 
 
 def merge_6793(path2, path4):
-    """RFC 6793 4.2.3 on flat AS counts (AS_SET counts as one): returns the segment list to report"""
+    """RFC 6793 4.2.3.  "the NEW BGP speaker ... determines the number of AS numbers in the AS_PATH and AS4_PATH using the
+    method specified in Section 9.1.2.2 of [RFC4271] and in [RFC5065] for route selection": an AS_SET counts as one
+    (RFC 4271 9.1.2.2 a), AS_CONFED_SEQUENCE / AS_CONFED_SET are not counted (RFC 5065 5.3).  With fewer in AS_PATH the
+    AS4_PATH is ignored; otherwise "as many AS numbers and path segments as necessary from the leading part of the AS_PATH"
+    are prepended to AS4_PATH, and "a valid AS_CONFED_SEQUENCE or AS_CONFED_SET path segment SHALL be prepended if it is
+    either the leading path segment or is adjacent to a path segment that is prepended".  (The first version of this
+    function counted the members of a confederation segment: the code's reading, not the RFC's.)"""
+
     def count(p):
-        return sum(1 if t in (1, 4) else len(a) for t, a in p)
+        return sum(0 if t in (3, 4) else 1 if t == 1 else len(a) for t, a in p)
 
     n2, n4 = count(path2), count(path4)
     if n2 < n4:
@@ -56,15 +63,21 @@ def merge_6793(path2, path4):
     keep = n2 - n4
     out = []
     for t, a in path2:
+        if t in (3, 4):
+            # leading, or adjacent to a segment which was prepended (whole): prepended, and it does not count
+            if not out or out[-1][2]:
+                out.append((t, a, True))
+                continue
+            break
         if keep <= 0:
             break
-        if t in (1, 4):
-            out.append((t, a))
+        if t == 1:
+            out.append((t, a, True))
             keep -= 1
         else:
-            out.append((t, a[:keep]))
+            out.append((t, a[:keep], len(a) <= keep))
             keep -= len(a[:keep])
-    return out + list(path4)
+    return [(t, a) for t, a, _whole in out] + list(path4)
 
 
 def expected_update(body: bytes, asn4: bool, addpath=lambda afi, safi: False):
@@ -126,8 +139,11 @@ def expected_update(body: bytes, asn4: bool, addpath=lambda afi, safi: False):
             # unknown transitive: relayed, PARTIAL set
             attribute[f'attribute-0x{typ:02X}-0x{(flags | 0x20):02X}'] = '0x' + val.hex()
         # unknown optional non-transitive: left out (not relayed)
+    # RFC 6793 4.2.3: "If the AS number [of AGGREGATOR] is not AS_TRANS, then ... the AS4_AGGREGATOR attribute and the AS4_PATH
+    # attribute SHALL be ignored"
+    old_aggregator = agg is not None and not agg.startswith('23456:')
     if path2 is not None:
-        path = merge_6793(path2, path4) if (path4 is not None and not asn4) else path2
+        path = merge_6793(path2, path4) if (path4 is not None and not asn4 and not old_aggregator) else path2
         # adjacent AS_SEQUENCE segments are one sequence semantically (segment boundaries carry no meaning)
         norm = []
         for t, a in path:
